@@ -58,8 +58,11 @@ def s3ok (br : Nat → Bool) : Expr → Bool → Bool
       (if lo == 0 && hi == some 1 then s3ok br e hard else s3ok br e true) && (hi != none || decide (0 < minSize e))
     | .look e .ahead => s3ok br e false && condFree e
     | .look e .aheadNeg => s3ok br e false
-    | .look e .behind => s3ok br e false && condFree e && !isAlt e && noBareEndZ e
-    | .look e .behindNeg => s3ok br e false && !isAlt e && noBareEndZ e
+    -- look-behinds, alternation bodies included (`(?<=a|bb)`: all four layouts of the compiler). For
+    -- `e = .alt es` the three conditions read: every alternative is `s3ok … false` (and there is one),
+    -- `condFreeAll es`, `noBareEndZAll es`.
+    | .look e .behind => s3ok br e false && condFree e && noBareEndZ e
+    | .look e .behindNeg => s3ok br e false && noBareEndZ e
     | .backref _ => true
     | .atomic e => s3ok br e false && condFree e
     | .keepOut => true
